@@ -195,8 +195,231 @@ def gen_program(rng, prop, name, world, tier):
                 if rng.random() < 0.6:
                     prog.append({"op": "cli.refill", "system": world["static"]["system"], "src": "f0", "store": "f1", "flags": [],
                                  "expect_ok": world["static"]["cli_ok"]})
+        if prop == "C19":
+            prog += gen_extract_ops(rng, name, world, tier, prog)
+        elif prop == "C14" and rng.random() < 0.4:
+            prog += gen_extract_ops(rng, name, world, tier, prog)[:2]
         return prog
+    if prop == "C17":
+        return gen_program_c17(rng, name, world, tier)
+    if prop == "C09":
+        return gen_program_c09(rng, name, world, tier)
     raise ValueError(prop)
+
+
+def _rand_val(rng, lo=1e-3, hi=1e5, signed=True):
+    import math
+    x = math.exp(rng.uniform(math.log(lo), math.log(hi)))
+    if signed and rng.random() < 0.4:
+        x = -x
+    return float(f"{x:.9g}")
+
+
+def gen_energy_data(rng, tier, small=False):
+    """an arbitrary phonon data set for write_energy (C17): counts 1-12 / 1-10 / 3-60, either sign, up to 1e5"""
+    nv = rng.randint(1, 4 if small else 12)
+    nq = rng.randint(1, 3 if small else 10)
+    np_ = rng.randint(3, 9 if small else 60)
+    d = {"nv": nv, "nq": nq, "np": np_, "nm": rng.randint(1, 9), "na": rng.randint(1, 20),
+         "pressures": [_rand_val(rng) for _ in range(nv)], "volumes": [_rand_val(rng) for _ in range(nv)],
+         "energies": [_rand_val(rng) for _ in range(nv)],
+         "qcoords": [[round(rng.uniform(-1, 1), 4) for _ in range(3)] for _ in range(nq)],
+         "weights": [_rand_val(rng, 1e-2, 1e3) for _ in range(nq)],
+         "freqs": [[[(_rand_val(rng, 1e-2, 1e5) if rng.random() < 0.9 else 0.0) for _ in range(np_)] for _ in range(nq)] for _ in range(nv)]}
+    return d
+
+
+def gen_program_c17(rng, name, world, tier):
+    prog = []
+    n = rng.randint(4, 10)
+    paths = []
+    h0 = name.lower() + "0"
+    for _ in range(n):
+        r = rng.random()
+        if r < 0.15:
+            prog.append({"op": "io.read_energy", "path": None, "abs": rng.random() < 0.5, "expect_ok": True})
+        elif r < 0.3:
+            prog.append({"op": "io.read_elast", "abs": rng.random() < 0.5, "expect_ok": True})
+        elif r < 0.4:
+            prog.append(_calc_new(h0, rng, world["valid"]))
+            prog.append({"op": "calc.read", "h": h0, "base": "calc", "name": rng.choice(["qha_input", "elast_data"])})
+        elif r < 0.65:
+            if paths and rng.random() < 0.4:
+                p = rng.choice(paths)      # overwrite an existing file (often with a smaller data set)
+                d = gen_energy_data(rng, tier, small=rng.random() < 0.6)
+            else:
+                p = f"we_{name.lower()}{len(paths)}.dat"
+                paths.append(p)
+                d = gen_energy_data(rng, tier, small=rng.random() < 0.3)
+            prog.append({"op": "io.write_energy", "path": p, "data": d, "abs": rng.random() < 0.5,
+                         "comment": rng.choice([None, "written by the simulator", "QHA data 1 2 3"]), "expect_ok": True})
+        elif r < 0.85 and paths:
+            prog.append({"op": "io.read_energy", "path": rng.choice(paths), "abs": rng.random() < 0.5, "expect_ok": True})
+        else:
+            prog.append({"op": "cli.fill", "system": world["static"]["system"], "store": "f%d" % len(prog), "flags": [],
+                         "abs": rng.random() < 0.5, "expect_ok": True})
+    return prog
+
+
+def gen_program_c09(rng, name, world, tier):
+    st = world["static"]
+    system = st["system"]
+    ncol = len(st["names"])
+    prog = []
+    flags = {}
+    if rng.random() < 0.2:
+        flags = {"drop_atol": 1e-8}
+    canon = {"extra_col": rng.choice([None, "V", "tail"])}
+    prog.append({"op": "fill.call", "target": system, "present": dict(canon), "flags": flags, "expect_ok": True})
+    ref = 0
+    variants = rng.sample(["perm", "upper", "int", "path", "abspath", "nopath", "cli", "calc", "again"], rng.randint(3, 6))
+    for v in variants:
+        pres = dict(canon)
+        if v == "perm":
+            perm = list(range(ncol))
+            rng.shuffle(perm)
+            pres["perm"] = perm
+            prog.append({"op": "fill.call", "target": system, "present": pres, "flags": flags, "ref": ref, "ref_what": "columns reordered", "expect_ok": True})
+        elif v == "upper":
+            pres["upper" if st["names"][0][0] == "c" else "lower"] = True
+            prog.append({"op": "fill.call", "target": system, "present": pres, "flags": flags, "ref": ref, "ref_what": "letter case of the column names", "expect_ok": True})
+        elif v == "int" and st["integer"]:
+            pres["int"] = True
+            prog.append({"op": "fill.call", "target": system, "present": pres, "flags": flags, "ref": ref, "ref_what": "integer-typed columns", "expect_ok": True})
+        elif v in ("path", "abspath") and system != "triclinic":
+            prog.append({"op": "fill.call", "target": {"relpath": f"{world['cwd']}/my_relations_{name.lower()}.txt", "abs": v == "abspath"},
+                         "present": pres, "flags": flags, "ref": ref, "ref_what": "user-written relations file equivalent to the packaged ones", "expect_ok": True})
+        elif v == "nopath":
+            prog.append({"op": "fill.call", "target": {"relpath": f"{world['cwd']}/no_such_relations.txt", "abs": rng.random() < 0.5},
+                         "present": pres, "flags": flags, "expect_fail": True})
+        elif v == "cli":
+            prog.append({"op": "cli.fill", "system": system, "store": "f%d" % len(prog), "flags": [], "abs": rng.random() < 0.5, "expect_ok": True})
+            if st["integer"] and any(st["int_cols"]):
+                prog.append({"op": "cli.fill", "system": system, "store": "f%d" % len(prog), "flags": [], "float_copy": True, "printed": True,
+                             "ref": len(prog) - 1, "ref_what": "integer-looking versus float-looking columns in the file", "expect_ok": True})
+        elif v == "calc":
+            prog.append(_calc_new(name.lower() + str(len(prog)), rng, world["valid"]))
+        elif v == "again":
+            prog.append({"op": "fill.call", "target": system, "present": dict(canon), "flags": flags, "ref": ref, "ref_what": "the same call repeated", "expect_ok": True})
+    return prog
+
+
+def tp_variables(world, prog):
+    """names (file-name prefix before _tp_) of the pressure-base tables this program will have written"""
+    rules = {kw: r for r in W.rules()["rules"] for kw in r["keywords"]}
+    out = []
+    eff = W.effective_output(world)
+    for op in prog:
+        entries = []
+        if op["op"] in ("calc.write", "cli.run"):
+            if op.get("vars") is None:
+                entries = eff.get("pressure_base", [])
+            elif op["vars"]["base"] == "pressure_base":
+                entries = op["vars"]["list"]
+        elif op["op"] == "env.mutate_config" and op.get("what") == "append_output" and op.get("base") == "pressure_base":
+            pass
+        for e in entries:
+            cfg = {"keyword": e} if isinstance(e, str) else e
+            r = rules.get(cfg["keyword"])
+            if r is None or "tp" not in r["bases"] or cfg.get("fname"):
+                continue
+            if r["kind"] == "value":
+                out.append(r["pattern"].format(base="tp").split("_tp_")[0])
+            else:
+                for k in expected_keys(world):
+                    out.append(r["pattern"].format(base="tp", ij=k).split("_tp_")[0])
+    return list(dict.fromkeys(out))
+
+
+def gen_extract_ops(rng, name, world, tier, prog):
+    ops = []
+    q = W.effective_qha(world)
+    vars_real = tp_variables(world, prog)
+    stubs = [s["var"] for s in world.get("stubs", [])]
+    t_grid = [q["T_MIN"] + k * q["DT"] for k in range(q["NT"])]
+    p_grid = [q["P_MIN"] + j * q["DELTA_P"] for j in range(q["NTV"])]
+    for _ in range(rng.randint(2, 6)):
+        # variables of one request come from one family of tables (same grid); mixing grids is legal but
+        # leaves nothing to check
+        pool = stubs if (stubs and (not vars_real or rng.random() < 0.35)) else vars_real
+        if rng.random() < 0.05:
+            pool = vars_real + stubs
+        if not pool:
+            pool = ["c11s", "bm_VRH", "v"]
+        nvar = rng.randint(1, min(6, len(pool)))
+        variables = rng.sample(pool, nvar)
+        if rng.random() < 0.1:
+            variables.append(rng.choice(["c11s", "G_VRH", "nosuch"]))
+        variables = list(dict.fromkeys(variables))
+        use_stub_grid = all(v in stubs for v in variables) and stubs
+        if use_stub_grid:
+            sg = next(s for s in world["stubs"] if s["var"] == variables[0])
+            tg, pg = sg["T"], sg["P"]
+        else:
+            tg, pg = t_grid, p_grid
+        if rng.random() < 0.6:
+            off = rng.choice([0.0, 0.0, 0.3, -0.2, 0.45])
+            if rng.random() < 0.5:
+                k = rng.randrange(len(tg))
+                step = (tg[1] - tg[0]) if len(tg) > 1 else 1.0
+                val = tg[k] + off * step
+                if rng.random() < 0.1:
+                    val = tg[0] - 0.7 * step if rng.random() < 0.5 else tg[-1] + 0.7 * step
+                ops.append({"op": "cli.extract", "variables": variables, "T": round(val, 9), "P": None, "hide_header": rng.random() < 0.2})
+            else:
+                k = rng.randrange(len(pg))
+                step = (pg[1] - pg[0]) if len(pg) > 1 else 1.0
+                val = pg[k] + off * step
+                if rng.random() < 0.1:
+                    val = pg[0] - 0.7 * step if rng.random() < 0.5 else pg[-1] + 0.7 * step
+                ops.append({"op": "cli.extract", "variables": variables, "T": None, "P": round(val, 9), "hide_header": rng.random() < 0.2})
+        else:
+            npts = rng.randint(1, 7)
+            cols = rng.choice([["P", "T"], ["T", "P"], ["depth", "P", "T"], ["P", "T", "depth"]])
+            pts = []
+            on_nodes = rng.random() < 0.5
+            for _k in range(npts):
+                if on_nodes:
+                    t, p = rng.choice(tg), rng.choice(pg)
+                else:
+                    t = tg[0] + rng.random() * (tg[-1] - tg[0])
+                    p = pg[0] + rng.random() * (pg[-1] - pg[0])
+                    t, p = round(t, 6), round(p, 6)
+                row = []
+                for cn in cols:
+                    row.append({"P": p, "T": t}.get(cn, round(rng.uniform(0, 2900), 3)))
+                pts.append(row)
+            gname = f"geotherm_{name.lower()}{len(ops)}.txt"
+            ops.append({"op": "cli.geotherm", "geotherm": gname, "columns": cols, "points": pts, "variables": variables,
+                        "hide_header": rng.random() < 0.15, "abs": rng.random() < 0.5})
+    return ops
+
+
+def gen_stub_tables(rng, name, world, n):
+    """tables in the documented format whose content is a bicubic polynomial in (T, P): the interpolating
+    bicubic spline reproduces such a table exactly everywhere, which gives an exact oracle off the nodes"""
+    stubs = []
+    for k in range(n):
+        nt, npp = rng.randint(5, 9), rng.randint(6, 10)
+        t0, dt = rng.choice([0.0, 300.0]), rng.choice([50.0, 100.0, 12.5])
+        p0, dp = rng.choice([0.0, 5.0]), rng.choice([1.0, 2.5, 10.0])
+        T = [t0 + i * dt for i in range(nt)]
+        P = [p0 + j * dp for j in range(npp)]
+        poly = {"t0": T[0], "ts": T[-1] - T[0], "p0": P[0], "ps": P[-1] - P[0],
+                "coef": [[round(rng.uniform(-50, 50) * (1.0 if a + b == 0 else 0.5), 6) for b in range(4)] for a in range(4)]}
+        poly["coef"][0][0] += 300.0
+        var = f"zq{name.lower()}{k}"
+        stubs.append({"var": var, "fname": f"{var}_tp_stub.txt", "T": T, "P": P, "poly": poly})
+    return stubs
+
+
+def stub_table_text(stub):
+    from .ops_io import eval_poly
+    head = "T(K)\\P(GPa)" + "".join("%24s" % repr(float(p)) for p in stub["P"])
+    lines = [head]
+    for t in stub["T"]:
+        lines.append("%-12s" % repr(float(t)) + "".join(" %.15e" % eval_poly(stub["poly"], t, p) for p in stub["P"]))
+    return "\n".join(lines)
 
 
 def gen_faults(rng, programs, n):
@@ -236,7 +459,8 @@ def gen_scenario(prop, seed, tier, faults_enabled=None, nclients=None):
     big = tier == "thorough"
     if nclients is None:
         nclients = {"C12": rng.choice([1, 1, 2]), "C14": rng.choice([1, 2, 2, 2, 3]),
-                    "C15": rng.choice([1, 2, 2]), "C19": rng.choice([1, 2])}.get(prop, 1)
+                    "C15": rng.choice([1, 2, 2]), "C19": rng.choice([1, 2]), "C17": rng.choice([1, 2, 2]),
+                    "C09": rng.choice([1, 1, 2])}.get(prop, 1)
     names = ["A", "B", "C"][:nclients]
     worlds = {}
     for n in names:
@@ -249,27 +473,49 @@ def gen_scenario(prop, seed, tier, faults_enabled=None, nclients=None):
                 kw["force_lattice"] = True
         else:
             kw["method"] = rng.choice(GOOD_METHODS)
-            kw["overshoot"] = rng.random() < 0.05
+            kw["overshoot"] = prop in ("C14",) and rng.random() < 0.05
+        if prop in ("C09", "C17"):
+            kw["system"] = rng.choice(SYSTEM_NAMES)
         kw["cli_spelling"] = True
         kw["full_output"] = prop == "C15" and rng.random() < 0.3
         w = W.gen_world(rng, tier, n, **kw)
         w["static"]["cli_ok"] = True
+        if prop == "C19":
+            w["stubs"] = gen_stub_tables(rng, n, w, rng.randint(0, 2))
         worlds[n] = w
-    if prop in ("C15", "C19") and nclients > 1 and rng.random() < 0.6:
+    if prop in ("C15", "C19", "C17") and nclients > 1 and rng.random() < 0.6:
         for n in names:           # clients share one working directory: last writer wins
             if worlds[n]["datadir"] == worlds[n]["cwd"]:
                 worlds[n]["datadir"] = "d" + n.lower()
             worlds[n]["cwd"] = "ws"
     programs = {n: gen_program(rng, prop, n, worlds[n], tier) for n in names}
+    extra = []
+    for n in names:
+        w = worlds[n]
+        for st in w.get("stubs", []):
+            extra.append({"client": n, "path": f"{w['cwd']}/{st['fname']}", "text": stub_table_text(st),
+                          "model": {"poly": st["poly"], "kind": "stub-table"}})
+        for op in programs[n]:
+            if op["op"] == "cli.geotherm":
+                text = "  ".join(op["columns"]) + "\n" + "\n".join("  ".join(repr(float(x)) for x in row) for row in op["points"]) + "\n"
+                extra.append({"client": n, "path": f"{w['cwd']}/{op['geotherm']}", "text": text})
+            if op["op"] == "fill.call" and isinstance(op["target"], dict) and "my_relations" in op["target"]["relpath"]:
+                if not any(e["path"] == op["target"]["relpath"] for e in extra):
+                    extra.append({"client": n, "path": op["target"]["relpath"], "text": W.relations_text(w["static"]["system"], rng)})
     schedule = [n for n in names for _ in programs[n]]
     rng.shuffle(schedule)
     if faults_enabled is None:
-        faults_enabled = rng.random() < 0.5
+        faults_enabled = rng.random() < 0.5 and prop != "C09"
     faults = []
     if faults_enabled:
         nf = rng.randint(1, 2) if rng.random() < 0.6 else rng.randint(3, 5)
         faults = gen_faults(rng, programs, nf)
-    clutter = gen_clutter(rng, worlds) if rng.random() < 0.8 else []
+    if prop == "C09":
+        clutter = gen_clutter(rng, worlds, shadow_bias=1.0)
+    else:
+        clutter = gen_clutter(rng, worlds) if rng.random() < 0.8 else []
+    extra_paths = {e["path"] for e in extra}
+    clutter = [c for c in clutter if f"{c['dir']}/{c['name']}" not in extra_paths]
     hs = HASH_SEEDS[tier]
     sess_hash = rng.choice(hs) if rng.random() < 0.5 else 0
     sc = {
@@ -277,7 +523,7 @@ def gen_scenario(prop, seed, tier, faults_enabled=None, nclients=None):
         "hash_seeds": {"reference": 0, "session": sess_hash},
         "worlds": worlds, "clutter": clutter,
         "listing_perm_seed": rng.randint(1, 10 ** 6) if rng.random() < 0.7 else None,
-        "programs": programs, "schedule": schedule, "faults": faults, "extra_files": [],
+        "programs": programs, "schedule": schedule, "faults": faults, "extra_files": extra,
     }
     return sc
 
